@@ -106,6 +106,7 @@ func plans(id, tier string) (Plan, bool) {
 			{Pkg: pkgV2, Harness: "c04_dictwords", Shards: 8},
 			{Pkg: pkgV2, Harness: "c04_numbering", Shards: 16},
 			{Pkg: pkgV2, Harness: "c04_replace", Shards: pick(4, 16)},
+			{Pkg: pkgV2, Harness: "c04_tracelong", Shards: 8},
 			{Pkg: pkgV2, Harness: "c04_trace", Shards: pick(4, 8)},
 			{Pkg: pkgV2, Harness: "c04_processes", Shards: 1, MaxProcs: 4},
 		}...)}, true
